@@ -112,6 +112,9 @@ func addStats(w *WorkerOut, o *RunOut) {
 	c["probe_reader_refused_by_pending_writer"] += o.Stats.ReaderRefuse
 	c["probe_two_tasks_parked_on_same_object"] += o.Stats.SameLockWait
 	c["probe_preempted_between_two_acquisitions_of_one_call"] += o.Stats.MidOpSwitch
+	if o.Stats.HoldPoints > 0 {
+		c["hold_scheduling_points"] += o.Stats.HoldPoints
+	}
 	if o.Stats.Goscheds > 0 {
 		c["gosched_scheduling_points"] += o.Stats.Goscheds
 	}
